@@ -15,7 +15,6 @@ structure St where
   term : TermCursor := {}
   live : Bool := false                    -- a history has begun
   origParent : Array (Option Id) := #[]   -- parent at creation (survives `close`, which clears `parent`)
-  pending : List Id := []                 -- windows with a restack request queued since the last flush
   dead : Bool := false                    -- the model reached `ub`: the rest of the history is not modelled
   prev : String := ""                     -- the implementation's previous observation line
 deriving Inhabited
@@ -282,7 +281,7 @@ def modelOp (st : St) (ts : List String) : Out :=
   | ["flush"] =>
     if !liveId st 0 then .bad else
     match flush fx st.tree with
-    | .ok o => .ok { st with tree := o.tree, term := st.term.applyAll o.calls, pending := [] } [] o.exposed o.calls
+    | .ok o => .ok { st with tree := o.tree, term := st.term.applyAll o.calls } [] o.exposed o.calls
     | .ub w => .ub w
   | "win" :: rest =>
     match ints? rest with
@@ -313,7 +312,7 @@ def modelOp (st : St) (ts : List String) : Out :=
       else if detached st fuel id then .bad
       else match op, args with
         | "close", [] =>
-          if id = 0 ∨ st.pending.contains id ∨ hasLiveChildren st id then .bad else ofRes st (closeWin fx st.tree id)
+          if id = 0 then .bad else ofRes st (closeWin fx st.tree id)
         | "show", [] => ofRes st (showWin fx st.tree id)
         | "hide", [] => ofRes st (hideWin fx st.tree id)
         | "expose", [] => ofRes st (expose st.tree fuel id none)
@@ -337,7 +336,7 @@ def modelOp (st : St) (ts : List String) : Out :=
           match changeOf op with
           | some ch =>
             match requestHierarchyChange st.tree fuel ch id with
-            | .ok t => .ok { st with tree := t, pending := id :: st.pending } [] [] []
+            | .ok t => .ok { st with tree := t } [] [] []
             | .ub w => .ub w
           | none => .bad
         | _, _ => .bad
